@@ -224,6 +224,18 @@ func destination(c *Check, r *Repo) {
 			})
 		}
 	}
+	// a value-shape rule that does not recognise how main.go computes a name yields when the
+	// evaluation of main on the modelled command lines (R-cli-semantics) shows source and
+	// destination to be the requested ones
+	yield := func(ok bool, construct, pos, okMsg, badMsg string) {
+		if !ok {
+			if res := cliVerdict(r); res.und == "" && len(res.bad) == 0 && res.n >= 60 {
+				c.OK("R-destination", construct, pos, "the name is not computed in the form this rule reads ("+clip(badMsg, 120)+"); decided by R-cli-semantics")
+				return
+			}
+		}
+		c.Decide(ok, "R-destination", construct, pos, okMsg, badMsg)
+	}
 	nOpen := 0
 	for _, f := range r.allFuncs("") {
 		if !strings.HasSuffix(r.Fset.Position(f.Pos()).Filename, "/main.go") {
@@ -244,7 +256,7 @@ func destination(c *Check, r *Repo) {
 					} else if strings.Contains(d, unresolvedShape) {
 						c.OK("R-destination", fnName(f)+"/file opened for writing is named by -output or <grammar>.go", r.pos(x.Pos()), "the name is computed by other functions of package main: the shape rule does not apply (decided by R-cli-semantics)")
 					} else {
-						c.Decide(d == "", "R-destination", fnName(f)+"/file opened for writing is named by -output or <grammar>.go", r.pos(x.Pos()),
+						yield(d == "", fnName(f)+"/file opened for writing is named by -output or <grammar>.go", r.pos(x.Pos()),
 							"the name is the value of the -output flag variable", "the destination is named by "+d)
 					}
 				case "os.Open":
@@ -253,7 +265,7 @@ func destination(c *Check, r *Repo) {
 					if !isGrammarArg(x.Call.Args[0]) && isMainLocal(x.Call.Args[0]) {
 						c.OK("R-destination", fnName(f)+"/file opened for reading is the grammar argument", r.pos(x.Pos()), "the name is computed by other functions of package main: the shape rule does not apply (decided by R-cli-semantics)")
 					} else {
-						c.Decide(isGrammarArg(x.Call.Args[0]), "R-destination", fnName(f)+"/file opened for reading is the grammar argument", r.pos(x.Pos()),
+						yield(isGrammarArg(x.Call.Args[0]), fnName(f)+"/file opened for reading is the grammar argument", r.pos(x.Pos()),
 							"os.Open(flag.Arg(0))", "the grammar is read from "+describeValue(x.Call.Args[0])+", not from the first command-line argument")
 					}
 				}
@@ -276,7 +288,7 @@ func destination(c *Check, r *Repo) {
 							c.OK("R-destination", fnName(f)+"/default destination is <grammar>.go", r.pos(x.Pos()), "the default is computed by another function of package main: the shape rule does not apply (decided by R-cli-semantics)")
 							return
 						}
-						c.Decide(d == "", "R-destination", fnName(f)+"/default destination is <grammar>.go", r.pos(x.Pos()),
+						yield(d == "", fnName(f)+"/default destination is <grammar>.go", r.pos(x.Pos()),
 							"the -output variable is defaulted to flag.Arg(0) + \".go\"", "the default destination is "+d+" — not the grammar's own path with .go appended")
 					}
 				}
@@ -294,7 +306,7 @@ func destination(c *Check, r *Repo) {
 					continue
 				}
 				what := map[bool]string{true: "output stream is os.Stdout or the opened destination", false: "input stream is os.Stdin or the opened grammar"}[w]
-				c.Decide(len(badLeaves[w]) == 0, "R-destination", fnName(f)+"/"+what, r.pos(f.Pos()), fmt.Sprintf("%d returned values: each is one of the two (or nil beside an error)", nLeaves[w]), strings.Join(uniq(badLeaves[w]), "; "))
+				yield(len(badLeaves[w]) == 0, fnName(f)+"/"+what, r.pos(f.Pos()), fmt.Sprintf("%d returned values: each is one of the two (or nil beside an error)", nLeaves[w]), strings.Join(uniq(badLeaves[w]), "; "))
 			}
 		}()
 		instrsOf(f, func(in ssa.Instruction) {
